@@ -132,6 +132,12 @@ def gen_cases(tier, seed):
         for fr in (FR1 if "," not in asm else fr2)[:1]:
             for vol in ("uniform", "dominant"):
                 keys.append(dict(kind="avg", asm=asm, fr=fr, tex="gen", n=5000, vol=vol, snaps=1, stiff="builtin"))
+    # the phase given as an ordinal (a Python int, or the numpy uint8 that Mineral.load /
+    # from_file leave behind) instead of the enumeration member (seed C10i: tensor chosen by `is`)
+    for asm in ASMS:
+        for fr in (FR1 if "," not in asm else fr2)[:2]:
+            for pform in ("int", "u8"):
+                keys.append(dict(kind="avg", asm=asm, fr=fr, tex="gen", n=3, vol="dominant", snaps=2, stiff="builtin", pform=pform))
     pairs = [(a, b) for a in (1, 2, 3) for b in (1, 2, 3) if a != b]
     for stiff in ("builtin", "custom"):
         for asm in ("ol,en", "en,ol"):
@@ -222,8 +228,15 @@ def stiffness(name):
     return st, {0: c_ol, 1: c_en}
 
 
+_PHASE_FORM = ["enum"]  # how the phase is handed to the Mineral constructor
+
+
 def _mineral(phase, fs, As):
     ph = _P.MineralPhase(phase)
+    if _PHASE_FORM[0] == "int":
+        ph = int(phase)
+    elif _PHASE_FORM[0] == "u8":  # what Mineral.load / from_file leave in .phase
+        ph = np.uint8(phase)
     m = _P.Mineral(
         phase=ph,
         fabric=_P.MineralFabric(FABRIC[phase]),
@@ -277,6 +290,14 @@ def classify(obs, desc, asm, fr, stiff):
 def run_case(key):
     if key["kind"] == "mismatch":
         return run_mismatch(key)
+    _PHASE_FORM[0] = key.get("pform", "enum")
+    try:
+        return _run_avg(key)
+    finally:
+        _PHASE_FORM[0] = "enum"
+
+
+def _run_avg(key):
     res = empty_result()
     cl = res["clauses"]
     viol = res["viol"]
